@@ -2,6 +2,7 @@ package main
 
 import (
 	"encoding/json"
+	"runtime"
 	"fmt"
 	"go/types"
 	"os"
@@ -31,6 +32,7 @@ type Engine struct {
 	locationType types.Type
 	thorough     bool
 	noMerge      bool
+	noModelGuide bool
 	maxSecs      float64
 	loadSecs     float64
 }
@@ -168,6 +170,12 @@ func Load(overlay map[string][]byte, patterns []string, tags string) (*Engine, e
 		timeTypeHolder = tp.Pkg.Scope().Lookup("Time").Type()
 	}
 	e.loadSecs = time.Since(t0).Seconds()
+	if os.Getenv("GOSYM_DEBUG") != "" {
+		var ms runtime.MemStats
+		runtime.GC()
+		runtime.ReadMemStats(&ms)
+		fmt.Fprintf(os.Stderr, "live heap after load: %d MB\n", ms.HeapAlloc>>20)
+	}
 	return e, nil
 }
 
@@ -241,6 +249,26 @@ func (e *Engine) runPath(s *Solver, fn *ssa.Function, prefix []int, wantWitness 
 	for s.Depth() > base+1 {
 		s.Pop()
 	}
+	// discharge the assertions still pending at the end of the path
+	if p.status != "unsupported" && p.status != "engine-error" && p.status != "infeasible" {
+		func() {
+			defer func() {
+				if r := recover(); r != nil {
+					if pe, ok := r.(pathEnd); ok {
+						if p.status == "done" {
+							p.status = pe.reason
+						}
+						return
+					}
+					panic(r)
+				}
+			}()
+			p.flushAsserts()
+		}()
+	}
+	for s.Depth() > base+1 {
+		s.Pop()
+	}
 	if p.status == "done" || p.status == "assert-failed" || p.status == "panic" {
 		// no-wrap obligations: the LIA value must be the machine value
 		var obs []*Term
@@ -250,6 +278,7 @@ func (e *Engine) runPath(s *Solver, fn *ssa.Function, prefix []int, wantWitness 
 		if all := mkAnd(obs...); all != tTrue {
 			s.Push()
 			s.Assert(mkNot(all))
+			s.tag = "wrap"
 			if r := s.Check(); r != Unsat {
 				desc := "wrap-possible"
 				if r == Sat {
@@ -278,6 +307,7 @@ func (e *Engine) runPath(s *Solver, fn *ssa.Function, prefix []int, wantWitness 
 		}
 	}
 	if wantWitness && p.status == "done" {
+		s.tag = "witness"
 		if s.Check() == Sat {
 			vars := p.allVars()
 			model := s.GetValues(vars)
@@ -317,6 +347,9 @@ func (e *Engine) Explore(fn *ssa.Function, seed int64) *HarnessResult {
 			defer func() {
 				mu.Lock()
 				res.Queries += s.queries
+				if os.Getenv("GOSYM_DEBUG") != "" {
+					fmt.Fprintln(os.Stderr, "queries by tag:", s.byTag)
+				}
 				res.SolverMs += s.solveNs / 1e6
 				res.SolverErrors += s.errors
 				res.Unknowns += s.unknowns
@@ -398,7 +431,7 @@ func (e *Engine) Explore(fn *ssa.Function, seed int64) *HarnessResult {
 					stop = true
 				}
 				if e.maxSecs > 0 && time.Since(t0).Seconds() > e.maxSecs {
-					inconc[fmt.Sprintf("time budget %.0fs exhausted after %d paths", e.maxSecs, res.Paths)] = true
+					inconc[fmt.Sprintf("time budget %.0fs exhausted", e.maxSecs)] = true
 					stop = true
 				}
 				if os.Getenv("GOSYM_PROGRESS") != "" && res.Paths%2000 == 0 {
